@@ -120,10 +120,13 @@ claim("C12", "Coq theorems on the reader's buffering and the inflate size checks
       "Theorems C12_buffered_le_input (for every request tree, hence for the whole loader and every payload decoder: the bytes the reader materialises never exceed "
       "the bytes supplied, whatever sizes the file declares), C12_buffered_consumed, C12_unzip_exact / C12_unzip_bounded (an accepted decompressed payload has exactly "
       "the declared size, is never inflated more than one byte past it, and under the recorded 1032:1 ratio is bounded by the compressed bytes), C12_take_bytes_bounded, "
-      "C12_bound_partial (the closed-form cost alloc_upper is below 64 MiB + 8192 B per input byte under the byte-budget accounting); the check re-proves them and measures "
+      "C12_consumed_framing (whenever the framing of the loader succeeds the input paid 128 bytes for the header, 16 per frame, 6 per chunk and every payload byte), "
+      "C12_bound_framing / C12_bound_loaded (for every byte string that loads, whatever it declares, the closed-form cost alloc_upper evaluated on the parameters measured "
+      "on the input - entities, layer chunks, cel / tileset payload bytes - is below 64 MiB + 8192 B per input byte; the only hypothesis left is the recorded zlib ratio), "
+      "C12_layer_chunks_long, C12_bound_partial (the older arithmetic form); the check re-proves them and measures "
       "peak live bytes and the largest request with a counting global allocator on inputs that inflate every declared size field, deflate bombs and count-driven tables, "
       "against both the property's bound and alloc_upper.",
-      "Partial: the allocator, Vec/HashMap/BTreeMap growth and struct layout are modelled by alloc_upper and validated by measurement, not derived from the code; the byte-budget hypotheses of C12_bound_partial (16 B per frame, 24 B per layer, 6 B per entity) are accounting, not a theorem about the parser. A new declared-size reservation in the code is detected when an input makes the measurement exceed alloc_upper or the bound.",
+      "Partial: the allocator, Vec/HashMap/BTreeMap growth and struct layout are modelled by alloc_upper and validated by measurement, not derived from the code; the byte budget itself is now derived from the framing parser (C12_bound_loaded), the constants of alloc_upper (512 B per declared frame, 256 B per entity, 6 B per inflated byte, ...) are not. A new declared-size reservation in the code is detected when an input makes the measurement exceed alloc_upper or the bound.",
       "DESIGN.md section 5, C12")
 claim("C01", "Coq end-to-end theorem load(serialize s) over a whole-sprite serializer with every encoding choice + decode-after-encode theorems per chunk kind + accessor laws + structure correspondence run",
       "47 theorems: C01_header / C01_header_loaded (canvas, frame count, format, transparent index as encoded, for every value of the unused header fields), one "
